@@ -4,9 +4,11 @@
    for the initial predicate).  The history variable of Lifecycle.tla is dropped: it does not influence the other variables. *)
 EXTENDS Integers
 
-CONSTANT
+CONSTANTS
     \* @type: Set(Str);
-    Docs
+    Docs,
+    \* @type: Str;
+    Root
 
 VARIABLES
     \* @type: Str -> Int;
@@ -16,25 +18,48 @@ VARIABLES
     \* @type: Str -> Int;
     ed,
     \* @type: Str -> Int;
-    known
+    known,
+    \* @type: Set(Str);
+    inc,
+    \* @type: Set(Str);
+    dinc
 
-CInit == Docs = {"u1", "u2", "u3"}
+CInit == Docs = {"u1", "u2", "u3"} /\ Root = "u1"
 
 View(u) == IF open[u] THEN ed[u] ELSE disk[u]
-KnownIsView == \A u \in Docs : known[u] = View(u)
-TypeOK == \A u \in Docs : disk[u] <= ed[u] /\ ed[u] >= 1 /\ disk[u] >= 1
+Tree == {Root} \cup (IF open[Root] THEN inc ELSE dinc)
+KnownIsView == \A u \in Tree : known[u] = View(u)
+TypeOK == /\ \A u \in Docs : disk[u] <= ed[u] /\ ed[u] >= 1 /\ disk[u] >= 1
+          /\ inc \subseteq Docs \ {Root} /\ dinc \subseteq Docs \ {Root}
 
 Init == /\ disk = [u \in Docs |-> 1] /\ open = [u \in Docs |-> TRUE] /\ ed = [u \in Docs |-> 1] /\ known = [u \in Docs |-> 1]
+        /\ inc = Docs \ {Root} /\ dinc = Docs \ {Root}
 
 (* any state that satisfies the invariant (versions up to 30) *)
 IndInit == /\ disk \in [Docs -> 1..30] /\ ed \in [Docs -> 1..30] /\ known \in [Docs -> 1..30] /\ open \in [Docs -> BOOLEAN]
+           /\ inc \in SUBSET Docs /\ dinc \in SUBSET Docs
            /\ TypeOK /\ KnownIsView
 
-Change(u) == open[u] /\ ed' = [ed EXCEPT ![u] = @ + 1] /\ known' = [known EXCEPT ![u] = ed[u] + 1] /\ UNCHANGED <<disk, open>>
-Save(u)   == disk' = [disk EXCEPT ![u] = ed[u]] /\ known' = [known EXCEPT ![u] = ed[u]] /\ UNCHANGED <<open, ed>>
-Close(u)  == open[u] /\ open' = [open EXCEPT ![u] = FALSE] /\ known' = [known EXCEPT ![u] = disk[u]] /\ UNCHANGED <<disk, ed>>
-Open(u)   == ~open[u] /\ open' = [open EXCEPT ![u] = TRUE] /\ known' = [known EXCEPT ![u] = ed[u]] /\ UNCHANGED <<disk, ed>>
-Next == \E u \in Docs : Change(u) \/ Save(u) \/ Close(u) \/ Open(u)
+(* the repaired mechanism of Lifecycle.tla: members are followed, a joining document is fetched from its view *)
+Tell(u, v) == IF u \in Tree THEN [known EXCEPT ![u] = v] ELSE known
+\* @type: (Str -> Int, Set(Str)) => (Str -> Int);
+Joining(k, tree2) == [u \in Docs |-> IF u \in tree2 /\ u \notin Tree THEN View(u) ELSE k[u]]
+
+Change(u) == open[u] /\ ed' = [ed EXCEPT ![u] = @ + 1] /\ known' = Tell(u, ed[u] + 1) /\ UNCHANGED <<disk, open, inc, dinc>>
+Link(u)   == /\ open[Root] /\ u # Root /\ u \notin inc /\ inc' = inc \cup {u} /\ ed' = [ed EXCEPT ![Root] = @ + 1]
+             /\ known' = Joining(Tell(Root, ed[Root] + 1), {Root} \cup inc \cup {u}) /\ UNCHANGED <<disk, open, dinc>>
+Unlink(u) == /\ open[Root] /\ u \in inc /\ inc' = inc \ {u} /\ ed' = [ed EXCEPT ![Root] = @ + 1]
+             /\ known' = Tell(Root, ed[Root] + 1) /\ UNCHANGED <<disk, open, dinc>>
+Save(u)   == /\ disk' = [disk EXCEPT ![u] = ed[u]] /\ dinc' = (IF u = Root THEN inc ELSE dinc)
+             /\ known' = Joining(Tell(u, ed[u]), {Root} \cup (IF u = Root /\ ~open[Root] THEN inc ELSE Tree \ {Root}))
+             /\ UNCHANGED <<open, ed, inc>>
+Close(u)  == /\ open[u] /\ open' = [open EXCEPT ![u] = FALSE]
+             /\ known' = Joining(Tell(u, disk[u]), {Root} \cup (IF u = Root THEN dinc ELSE Tree \ {Root}))
+             /\ UNCHANGED <<disk, ed, inc, dinc>>
+Open(u)   == /\ ~open[u] /\ open' = [open EXCEPT ![u] = TRUE]
+             /\ known' = Joining(Tell(u, ed[u]), {Root} \cup (IF u = Root THEN inc ELSE Tree \ {Root}))
+             /\ UNCHANGED <<disk, ed, inc, dinc>>
+Next == \E u \in Docs : Change(u) \/ Save(u) \/ Close(u) \/ Open(u) \/ Link(u) \/ Unlink(u)
 
 IndInv == TypeOK /\ KnownIsView
 =============================================================================
